@@ -20,7 +20,9 @@ TABLE = {
     "C05": (["maint", "maint_file", "maint_memory"], 30, 400, 40, False),
     "C06": (["variants"], 25, 300, 40, False),
     "C12": (["values"], 40, 500, 40, False),
+    "C22": (["types"], 30, 400, 40, False),
 }
+SUB = {"C22": "types"}
 
 
 def mc_db(tier):
@@ -64,11 +66,12 @@ def path_family(tier, verdict, work, totals):
 def run(prop, tier):
     t0 = time.time()
     profiles, rq, rt, ops, use_mc = TABLE[prop]
+    sub = SUB.get(prop, "hist")
     verdict = vlib.Verdict(prop)
     work = vlib.scratch(prop.lower())
     try:
         mc = mc_db(tier) if use_mc else None
-        totals = dbcheck.run_profiles(prop, tier, profiles, rq, rt, ops, verdict, work)
+        totals = dbcheck.run_profiles(prop, tier, profiles, rq, rt, ops, verdict, work, sub=sub)
         if prop == "C17":
             path_family(tier, verdict, work, totals)
         dbcheck.evidence(prop, tier, totals, t0, verdict, mc=mc)
